@@ -62,6 +62,10 @@ GROUPS.append(G("belt.frag3.search", "harness/C10/frag3.c", "h_frag3", BELT, lev
                 fn=["beltCHEStepE", "beltCHEStepD", "beltCHEStepI", "beltCHEStepA", "beltDWPStepE", "beltDWPStepA", "beltCTRStepE", "beltCFBStepE", "beltCFBStepD",
                     "beltMACStepA", "beltHMACStepA", "beltHashStepH"],
                 note="three fragments of generated lengths 0..50 each (small / block-completing lengths weighted) against the one-shot functions; NOT proof"))
+GROUPS.append(G("gen.frag3.search", "harness/C10/frag_gen.c", "h_frag_gen", ["src/crypto/brng.c", "src/crypto/botp.c", "src/core/mem.c", "src/core/blob.c", "src/core/util.c"],
+                level="N", backend="native", search=40000,
+                fn=["brngCTRStepR", "brngCTRStepG", "brngHMACStepR", "botpHOTPStepR", "botpHOTPStepV", "botpHOTPStepG"],
+                note="brng three-fragment generation against the one-shot functions; HOTP operation scripts against an independently tracked counter; NOT proof"))
 TRUSTED = ["stubs/belt_uf.c: uninterpreted block function (both sides of every equality share it)"]
 ASSUMPTIONS = ["two fragments from a freshly started state; a third fragment would start from a state of the same shape (fill level + symbolic chaining values)"]
 NOT_COVERED = ["brng, botp bundles", "SDE and FMT bundles, KRP", "bash bundles only natively"]
